@@ -92,7 +92,8 @@ def gen_case(rng, g, meth, classes, idx):
             usersub = cls in c08.LIB and rng.random() < 0.2
             msg = g.text(allow_none=False)
             code, um, sid = g.integer(), g.text(), g.text()
-            outs.append(('raise', (cls, usersub, msg, code, um, sid)))
+            # one raise in five carries a non-str detail (an adapter wrapping a caught low-level error)
+            outs.append(('raise', (cls, usersub, msg, code, um, sid, rng.random() < 0.2 and cls != 'KeyError')))
             # later outcomes are still scripted: they must stay unused
             continue
         slot = SLOT.get(name)
@@ -131,8 +132,8 @@ class Script:
         kind, v = self.outs[j]
         if kind == 'ret':
             return v
-        cls, usersub, msg, code, um, sid = v
-        e = c08.make(cls, self.classes, msg, code, um, sid, usersub)
+        cls, usersub, msg, code, um, sid = v[:6]
+        e = c08.make(cls, self.classes, ConnectionError(msg) if (len(v) > 6 and v[6]) else msg, code, um, sid, usersub)
         self.raised.append(e)
         raise e
 
@@ -148,7 +149,7 @@ def sx_outcome(o, script_exc=None):
     kind, v = o
     if kind == 'ret':
         return [sym('ret'), ari.pyval(v)]
-    cls, usersub, msg, code, um, sid = v
+    cls, usersub, msg, code, um, sid = v[:6]
     e = script_exc if script_exc is not None else None
     s = str(e) if e is not None else msg
     return [sym('raise'), c08.sx_exn(cls, s.encode('utf-8'), code, um, sid, usersub)]
@@ -289,7 +290,7 @@ def model_calls(case):
 
 def case_json(case):
     return {'method': case['meth'], 'id': case['rid'], 'line': case.get('line'),
-            'outcomes': [[k, (repr(v) if k == 'ret' else list(v[:1]) + [v[1], v[2], v[3], v[4], v[5]])] for k, v in case['outs']]}
+            'outcomes': [[k, (repr(v) if k == 'ret' else list(v))] for k, v in case['outs']]}
 
 
 def explore(ctx, res, n_per_method):
